@@ -40,7 +40,7 @@ use std::panic::{AssertUnwindSafe, catch_unwind};
 use std::sync::{Arc, Mutex};
 
 use p3_air::{Air, AirBuilder, BaseAir, WindowAccess};
-use p3_field::{Field, PrimeCharacteristicRing};
+use p3_field::{Field, PrimeCharacteristicRing, TwoAdicField};
 use p3_lookup::{Count, InteractionBuilder};
 use p3_matrix::dense::RowMajorMatrix;
 use serde_json::{Value, json};
@@ -156,6 +156,14 @@ pub enum ForgeSpec {
     /// fewer, an over-zealous one when more). With a positive bit count on both sides the Fiat–Shamir
     /// transcript does not depend on the count, so the proof is otherwise well formed.
     Grind(usize, usize),
+    /// `wrongair:i:k[:label]` — the *wrong-AIR* move: an honest proof (stock algorithm, true statement) of the
+    /// `k`-th sibling of instance `i`'s AIR — same shape (widths, opened rows, number of quotient chunks,
+    /// number of periodic columns), but another periodic table / other preprocessed content / another
+    /// constraint constant (`Siblings`) — presented, with the sibling's public values, for the target's own
+    /// AIR and verifying data. Everything transcript- and Merkle-bound is consistent, so the only thing that
+    /// can reject is what the verifier recomputes from the AIR itself: the periodic columns at zeta, the
+    /// folded constraints, the preprocessed commitment of the verifying key.
+    WrongAir(usize, usize),
 }
 
 impl ForgeSpec {
@@ -171,6 +179,7 @@ impl ForgeSpec {
             "perm" => ForgeSpec::Perm(n(1)?, n(2)?),
             "quot" => ForgeSpec::Quot(n(1)?, n(2)?),
             "grind" => ForgeSpec::Grind(n(1)?, n(2)?),
+            "wrongair" => ForgeSpec::WrongAir(n(1)?, n(2)?),
             _ => return None,
         })
     }
@@ -372,6 +381,85 @@ pub struct Target {
     pub forge: Option<Box<dyn Fn(&str) -> Result<Value, String>>>,
     /// `Some(msg)`: the adversarial prover with nothing forged does not reproduce the stock prover's proof.
     pub drift: Option<String>,
+    /// AIR / configuration features of this target that a verifier treats specially (`features_of`):
+    /// the rows of the (PCS flavour x feature) coverage matrix of the evidence.
+    pub features: Vec<String>,
+}
+
+/// Feature tags of a target, read off the AIRs and the real proof: `zk`, `pv` (public values), `pre-cur` /
+/// `pre-next` (preprocessed columns read on the current row only / also on the next row), `no-next` (an
+/// instance that opens no next trace row), `lookups`, `chunks2+` / `chunks4+` (several quotient chunks per
+/// instance, before the ZK doubling), `periodic` and its sub-cases `periodic-multi` (>= 2 columns in one
+/// AIR), `periodic-p1` (a period-1 column), `periodic-p2+` (period >= 2: the only ones that depend on the
+/// evaluation domain), `periodic-pn` (period = trace length), `periodic-mixed` (different periods in one AIR),
+/// `multi-height` (instances of different heights).
+pub fn features_of(zk: bool, insts: &[InstStatic], periods: &[Vec<usize>], chunks: &[usize], heights: &[usize]) -> Vec<String> {
+    let mut f: std::collections::BTreeSet<&'static str> = Default::default();
+    if zk {
+        f.insert("zk");
+    }
+    for x in insts {
+        if x.n_pub > 0 {
+            f.insert("pv");
+        }
+        if x.pre_w > 0 {
+            f.insert(if x.pre_next { "pre-next" } else { "pre-cur" });
+        }
+        if !x.has_next {
+            f.insert("no-next");
+        }
+        if x.n_lookups > 0 {
+            f.insert("lookups");
+        }
+    }
+    for (i, ps) in periods.iter().enumerate() {
+        if ps.is_empty() {
+            continue;
+        }
+        f.insert("periodic");
+        if ps.len() >= 2 {
+            f.insert("periodic-multi");
+        }
+        if ps.iter().any(|p| *p == 1) {
+            f.insert("periodic-p1");
+        }
+        if ps.iter().any(|p| *p >= 2) {
+            f.insert("periodic-p2+");
+        }
+        if heights.get(i).is_some_and(|h| ps.iter().any(|p| p == h)) {
+            f.insert("periodic-pn");
+        }
+        if ps.iter().any(|p| *p != ps[0]) {
+            f.insert("periodic-mixed");
+        }
+    }
+    // quotient chunks per instance without the ZK doubling
+    for c in chunks {
+        let c = if zk { c / 2 } else { *c };
+        if c >= 2 {
+            f.insert("chunks2+");
+        }
+        if c >= 4 {
+            f.insert("chunks4+");
+        }
+    }
+    if heights.iter().any(|h| *h != heights[0]) {
+        f.insert("multi-height");
+    }
+    f.into_iter().map(String::from).collect()
+}
+
+/// Quotient chunk counts per instance, read off the serialised real proof.
+pub fn chunk_counts(mode: &str, proof: &Value, n: usize) -> Vec<usize> {
+    (0..n)
+        .map(|i| {
+            if mode == "uni" {
+                alen(&proof["opened_values"]["quotient_chunks"])
+            } else {
+                alen(&proof["opened_values"]["instances"][i]["base_opened_values"]["quotient_chunks"])
+            }
+        })
+        .collect()
 }
 
 // ------------------------------------------------------------------------------------------
@@ -591,6 +679,9 @@ pub enum DemoAir {
     Table,
     /// Two columns `[a, b]`; a *local* lookup: column `b` is a permutation of column `a`.
     Perm,
+    /// The feature AIR (periodic columns, preprocessed columns, public values, constraint degree); with
+    /// `bus != 0` every row also puts `(x)` on the global bus.
+    Feat(FeatAir),
 }
 
 pub fn bus_trace<V: Field>(rows: usize, modulo: usize, offset: usize) -> RowMajorMatrix<V> {
@@ -606,7 +697,7 @@ pub fn perm_trace<V: Field>(rows: usize) -> RowMajorMatrix<V> {
     RowMajorMatrix::new((0..rows).flat_map(|r| [V::from_usize(r + 10), V::from_usize((r + 3) % rows + 10)]).collect(), 2)
 }
 
-impl<V: Field> BaseAir<V> for DemoAir {
+impl<V: TwoAdicField> BaseAir<V> for DemoAir {
     fn width(&self) -> usize {
         match self {
             DemoAir::Fib => 2,
@@ -614,24 +705,40 @@ impl<V: Field> BaseAir<V> for DemoAir {
             DemoAir::Mul(a) => BaseAir::<V>::width(a),
             DemoAir::Bus { .. } => 1,
             DemoAir::Table | DemoAir::Perm => 2,
+            DemoAir::Feat(a) => BaseAir::<V>::width(a),
         }
     }
     fn num_public_values(&self) -> usize {
         match self {
             DemoAir::Fib => 3,
+            DemoAir::Feat(a) => BaseAir::<V>::num_public_values(a),
             _ => 0,
         }
     }
     fn preprocessed_width(&self) -> usize {
         match self {
             DemoAir::Mul(a) => BaseAir::<V>::preprocessed_width(a),
+            DemoAir::Feat(a) => BaseAir::<V>::preprocessed_width(a),
             _ => 0,
         }
     }
     fn preprocessed_trace(&self) -> Option<RowMajorMatrix<V>> {
         match self {
             DemoAir::Mul(a) => BaseAir::<V>::preprocessed_trace(a),
+            DemoAir::Feat(a) => BaseAir::<V>::preprocessed_trace(a),
             _ => None,
+        }
+    }
+    fn num_periodic_columns(&self) -> usize {
+        match self {
+            DemoAir::Feat(a) => BaseAir::<V>::num_periodic_columns(a),
+            _ => 0,
+        }
+    }
+    fn periodic_columns(&self) -> Vec<Vec<V>> {
+        match self {
+            DemoAir::Feat(a) => BaseAir::<V>::periodic_columns(a),
+            _ => vec![],
         }
     }
     fn main_next_row_columns(&self) -> Vec<usize> {
@@ -642,11 +749,13 @@ impl<V: Field> BaseAir<V> for DemoAir {
             DemoAir::Bus { open_next, .. } => if *open_next { vec![0] } else { vec![] },
             DemoAir::Table => vec![0, 1],
             DemoAir::Perm => vec![],
+            DemoAir::Feat(a) => BaseAir::<V>::main_next_row_columns(a),
         }
     }
     fn preprocessed_next_row_columns(&self) -> Vec<usize> {
         match self {
             DemoAir::Mul(a) => BaseAir::<V>::preprocessed_next_row_columns(a),
+            DemoAir::Feat(a) => BaseAir::<V>::preprocessed_next_row_columns(a),
             _ => vec![],
         }
     }
@@ -654,7 +763,7 @@ impl<V: Field> BaseAir<V> for DemoAir {
 
 impl<AB: AirBuilder + InteractionBuilder> Air<AB> for DemoAir
 where
-    AB::F: Field,
+    AB::F: TwoAdicField,
 {
     fn eval(&self, builder: &mut AB) {
         match self {
@@ -673,6 +782,14 @@ where
                 let m: AB::Expr = row[1].into();
                 builder.push_interaction(BUS, [v], Count::provided(-m));
             }
+            DemoAir::Feat(a) => {
+                a.eval(builder);
+                if a.bus != 0 {
+                    let main = builder.main();
+                    let v: AB::Expr = main.current_slice()[0].into();
+                    builder.push_interaction(BUS, [v], Count::<AB::Expr>::from(a.bus));
+                }
+            }
             DemoAir::Perm => {
                 let main = builder.main();
                 let row = main.current_slice();
@@ -685,6 +802,358 @@ where
             }
         }
     }
+}
+
+// ------------------------------------------------------------------------------------------
+// the feature AIR: every AIR feature a verifier treats specially, switchable; and its siblings
+
+/// Maximal number of periodic columns of a `FeatAir`.
+pub const FEAT_PCOLS: usize = 4;
+
+/// Main columns `[x, y]`, optional preprocessed columns `[a, b]`, up to four periodic columns `P_c`, optional
+/// public values `[x_first, x_last]`:
+///   first row : `x = pv[0]` (or `x = 0` without public values)
+///   transition: `x' = x + k + sum_c (c+1) * P_c  [+ a] [+ 2 * b']`   (`a`: `pre >= 1`, `b'` = next row, `pre == 2`)
+///   every row : `y = x^degree`                                         (constraint degree = `degree`)
+///   last row  : `x = pv[1]`                                            (`n_pub == 2`)
+/// and, inside a batch (`DemoAir::Feat`), `bus = +1 / -1`: every row sends / receives `(x)` on the global bus.
+/// `Copy` so that it fits `DemoAir`; the periodic tables are derived from the fields (`table`).
+#[derive(Clone, Copy, Debug, PartialEq)]
+pub struct FeatAir {
+    pub rows: usize,
+    /// period of periodic column `c` (a power of two `<= rows`), 0 = no such column
+    pub periods: [usize; FEAT_PCOLS],
+    /// the column's table is `alpha + beta * X` evaluated over the subgroup of order `period` (for `period >= 4` a
+    /// table of low degree `< period / 2`: the interpolant is also the interpolant of its even entries over the
+    /// subgroup of half the order, so "every second entry, half the period" is what this column looks like to a
+    /// verifier that folds once too often); else pseudo-random
+    pub lin: [bool; FEAT_PCOLS],
+    /// sibling knobs of the periodic tables (all 0 / None in a target's own AIR), applied in this order:
+    /// keep every `2^sub`-th entry (period shrinks), repeat the table `2^dbl` times (period grows, same column),
+    /// rotate by `rot`, add `bump` to the last entry; finally exchange the tables of two columns
+    pub sub: [u8; FEAT_PCOLS],
+    pub dbl: [u8; FEAT_PCOLS],
+    pub rot: [u8; FEAT_PCOLS],
+    pub bump: [u8; FEAT_PCOLS],
+    pub swap: Option<(u8, u8)>,
+    /// 0: no preprocessed columns, 1: read on the current row only, 2: also on the next row
+    pub pre: u8,
+    /// sibling knob: one preprocessed cell differs
+    pub pre_bump: bool,
+    /// 0 or 2
+    pub n_pub: usize,
+    pub degree: u64,
+    /// constant of the transition constraint (sibling knob: `k + 1`)
+    pub k: u64,
+    pub bus: i32,
+}
+
+impl FeatAir {
+    pub const fn new(rows: usize) -> Self {
+        FeatAir { rows, periods: [0; FEAT_PCOLS], lin: [false; FEAT_PCOLS], sub: [0; FEAT_PCOLS], dbl: [0; FEAT_PCOLS],
+            rot: [0; FEAT_PCOLS], bump: [0; FEAT_PCOLS], swap: None, pre: 0, pre_bump: false, n_pub: 0, degree: 2, k: 1, bus: 0 }
+    }
+    pub const fn periodic(mut self, periods: [usize; FEAT_PCOLS], lin: [bool; FEAT_PCOLS]) -> Self {
+        self.periods = periods;
+        self.lin = lin;
+        self
+    }
+    pub const fn pre(mut self, pre: u8) -> Self {
+        self.pre = pre;
+        self
+    }
+    pub const fn pubs(mut self) -> Self {
+        self.n_pub = 2;
+        self
+    }
+    pub const fn degree(mut self, d: u64) -> Self {
+        self.degree = d;
+        self
+    }
+    pub const fn bus(mut self, sign: i32) -> Self {
+        self.bus = sign;
+        self
+    }
+
+    /// The periodic tables, in column order (columns with `periods[c] == 0` do not exist).
+    pub fn tables<V: TwoAdicField>(&self) -> Vec<Vec<V>> {
+        let mut out: Vec<Vec<V>> = vec![];
+        for c in 0..FEAT_PCOLS {
+            let p = self.periods[c];
+            if p == 0 {
+                continue;
+            }
+            let mut t: Vec<V> = if self.lin[c] {
+                let g = V::two_adic_generator(p.trailing_zeros() as usize);
+                let (alpha, beta) = (V::from_usize(5 + c), V::from_usize(3 + 2 * c));
+                g.powers().take(p).map(|gi| alpha + beta * gi).collect()
+            } else {
+                let mut rng = Rng::new(4242 + 17 * c as u64 + p as u64);
+                (0..p).map(|_| V::from_u64(rng.below(1 << 30))).collect()
+            };
+            if self.sub[c] > 0 {
+                t = t.into_iter().step_by(1 << self.sub[c]).collect();
+            }
+            for _ in 0..self.dbl[c] {
+                let u = t.clone();
+                t.extend(u);
+            }
+            let n = t.len();
+            t.rotate_left(self.rot[c] as usize % n);
+            t[n - 1] += V::from_u8(self.bump[c]);
+            out.push(t);
+        }
+        if let Some((i, j)) = self.swap {
+            out.swap(i as usize, j as usize);
+        }
+        out
+    }
+
+    /// Effective periods (after the sibling knobs), in column order.
+    pub fn eff_periods(&self) -> Vec<usize> {
+        self.tables::<p3_baby_bear::BabyBear>().iter().map(|t| t.len()).collect()
+    }
+
+    pub fn pre_trace<V: Field>(&self) -> Option<RowMajorMatrix<V>> {
+        if self.pre == 0 {
+            return None;
+        }
+        let mut v = V::zero_vec(2 * self.rows);
+        for i in 0..self.rows {
+            v[2 * i] = V::from_usize(100 + i);
+            v[2 * i + 1] = V::from_usize(3 * i + 1);
+        }
+        if self.pre_bump {
+            v[2 * (self.rows / 2) + 1] += V::ONE;
+        }
+        Some(RowMajorMatrix::new(v, 2))
+    }
+
+    /// The (unique) trace satisfying the AIR with first value 7 (0 without public values).
+    pub fn trace<V: TwoAdicField>(&self) -> RowMajorMatrix<V> {
+        let tabs = self.tables::<V>();
+        let pre = self.pre_trace::<V>();
+        let mut v = V::zero_vec(2 * self.rows);
+        let mut x = if self.n_pub > 0 { V::from_u8(7) } else { V::ZERO };
+        for i in 0..self.rows {
+            v[2 * i] = x;
+            v[2 * i + 1] = x.exp_u64(self.degree);
+            x += V::from_u64(self.k);
+            for (c, t) in tabs.iter().enumerate() {
+                x += V::from_usize(c + 1) * t[i % t.len()];
+            }
+            if let Some(m) = &pre {
+                x += m.values[2 * i];
+                if self.pre == 2 {
+                    x += m.values[2 * ((i + 1) % self.rows) + 1].double();
+                }
+            }
+        }
+        RowMajorMatrix::new(v, 2)
+    }
+
+    pub fn pis<V: TwoAdicField>(&self) -> Vec<V> {
+        if self.n_pub == 0 {
+            return vec![];
+        }
+        let t = self.trace::<V>();
+        vec![t.values[0], t.values[2 * (self.rows - 1)]]
+    }
+
+    /// Same AIR up to the bus sign (the sender and the receiver of a batch are altered together).
+    pub fn same_family(&self, o: &FeatAir) -> bool {
+        FeatAir { bus: 0, ..*self } == FeatAir { bus: 0, ..*o }
+    }
+
+    /// The siblings: `(label, AIR)`. Every one has the proof shape of `self`. All but `ptab-dbl` (the same
+    /// column written with twice the period: an *equivalent* AIR, the proof must stay accepted) define another
+    /// set of valid traces, so an honest proof of the sibling is a proof of a false statement about `self`.
+    pub fn feat_siblings(&self) -> Vec<(String, FeatAir)> {
+        let mut out = vec![];
+        let cols: Vec<usize> = (0..FEAT_PCOLS).filter(|c| self.periods[*c] > 0).collect();
+        for &c in &cols {
+            let p = self.periods[c];
+            let mut s = *self;
+            s.bump[c] = 1;
+            out.push((format!("ptab-bump-p{p}"), s));
+            if p >= 2 {
+                let mut s = *self;
+                s.rot[c] = 1;
+                out.push((format!("ptab-rot-p{p}"), s));
+                // the table of half the period made of the even entries: what the column looks like to a verifier
+                // that evaluates it over a domain of twice the size
+                let mut s = *self;
+                s.sub[c] = 1;
+                out.push((format!("ptab-half-p{p}{}", if self.lin[c] && p >= 4 { "-lin" } else { "" }), s));
+            }
+            if 2 * p <= self.rows {
+                let mut s = *self;
+                s.dbl[c] = 1;
+                out.push((format!("ptab-dbl-p{p}"), s));
+            }
+        }
+        if cols.len() >= 2 {
+            let mut s = *self;
+            s.swap = Some((0, (cols.len() - 1) as u8));
+            out.push(("ptab-swap".to_string(), s));
+            // every column of period >= 2 halved at once: the AIR as a verifier sees it that evaluates ALL periodic
+            // columns over a domain of twice the size (with minimal-degree tables that verifier accepts its proofs)
+            let big: Vec<usize> = cols.iter().copied().filter(|c| self.periods[*c] >= 2).collect();
+            if big.len() >= 2 {
+                let mut s = *self;
+                for &c in &big {
+                    s.sub[c] = 1;
+                }
+                let all_lin = big.iter().all(|c| self.lin[*c] && self.periods[*c] >= 4);
+                out.push((format!("ptab-half-all{}", if all_lin { "-lin" } else { "" }), s));
+            }
+        }
+        if self.pre > 0 {
+            let mut s = *self;
+            s.pre_bump = true;
+            out.push(("pre-content".to_string(), s));
+        }
+        let mut s = *self;
+        s.k += 1;
+        out.push(("constraint-k".to_string(), s));
+        out
+    }
+}
+
+impl<V: TwoAdicField> BaseAir<V> for FeatAir {
+    fn width(&self) -> usize {
+        2
+    }
+    fn num_public_values(&self) -> usize {
+        self.n_pub
+    }
+    fn preprocessed_width(&self) -> usize {
+        if self.pre > 0 { 2 } else { 0 }
+    }
+    fn preprocessed_trace(&self) -> Option<RowMajorMatrix<V>> {
+        self.pre_trace::<V>()
+    }
+    fn preprocessed_next_row_columns(&self) -> Vec<usize> {
+        if self.pre == 2 { vec![0, 1] } else { vec![] }
+    }
+    fn num_periodic_columns(&self) -> usize {
+        self.periods.iter().filter(|p| **p > 0).count()
+    }
+    fn periodic_columns(&self) -> Vec<Vec<V>> {
+        self.tables::<V>()
+    }
+}
+
+impl<AB: AirBuilder> Air<AB> for FeatAir
+where
+    AB::F: TwoAdicField,
+{
+    fn eval(&self, builder: &mut AB) {
+        let np = self.periods.iter().filter(|p| **p > 0).count();
+        let per: Vec<AB::Expr> = builder.periodic_values()[..np].iter().map(|v| (*v).into()).collect();
+        let pubs: Vec<AB::Expr> = builder.public_values().iter().map(|v| (*v).into()).collect();
+        let main = builder.main();
+        let (local, next) = (main.current_slice(), main.next_slice());
+        let (x, y, xn) = (local[0], local[1], next[0]);
+        let mut step: AB::Expr = AB::Expr::from_u64(self.k);
+        for (c, p) in per.iter().enumerate() {
+            step += p.clone() * AB::Expr::from_usize(c + 1);
+        }
+        if self.pre > 0 {
+            let prep = builder.preprocessed().clone();
+            step += prep.current_slice()[0].into();
+            if self.pre == 2 {
+                step += prep.next_slice()[1].into().double();
+            }
+        }
+        if self.n_pub > 0 {
+            builder.when_first_row().assert_eq(x, pubs[0].clone());
+        } else {
+            builder.when_first_row().assert_zero(x);
+        }
+        builder.when_transition().assert_eq(xn, x.into() + step);
+        builder.assert_eq(y, x.into().exp_u64(self.degree));
+        if self.n_pub == 2 {
+            builder.when_last_row().assert_eq(x, pubs[1].clone());
+        }
+    }
+}
+
+/// The wrong-AIR move: siblings of an AIR (same type, same proof shape) with their honest witnesses.
+pub trait Siblings<V: Field>: Sized {
+    fn siblings(&self) -> Vec<(String, Self)> {
+        vec![]
+    }
+    /// Honest trace and public values of a *sibling* (never called on AIRs without siblings).
+    fn sib_witness(&self) -> (RowMajorMatrix<V>, Vec<V>) {
+        unreachable!("AIR without siblings")
+    }
+    /// `self` and `other` are altered together (sender / receiver of one bus).
+    fn same_family(&self, _other: &Self) -> bool {
+        false
+    }
+    /// Periods of the periodic columns (for the coverage matrix).
+    fn periods(&self) -> Vec<usize> {
+        vec![]
+    }
+}
+
+impl<V: Field> Siblings<V> for p3_circuit::test_utils::FibonacciAir {}
+impl<V: Field> Siblings<V> for AddAir {}
+impl<V: Field> Siblings<V> for MulAir {}
+impl<V: TwoAdicField> Siblings<V> for FeatAir {
+    fn siblings(&self) -> Vec<(String, Self)> {
+        self.feat_siblings()
+    }
+    fn sib_witness(&self) -> (RowMajorMatrix<V>, Vec<V>) {
+        (self.trace::<V>(), self.pis::<V>())
+    }
+    fn same_family(&self, other: &Self) -> bool {
+        FeatAir::same_family(self, other)
+    }
+    fn periods(&self) -> Vec<usize> {
+        self.eff_periods()
+    }
+}
+impl<V: TwoAdicField> Siblings<V> for DemoAir {
+    fn siblings(&self) -> Vec<(String, Self)> {
+        match self {
+            DemoAir::Feat(a) => a.feat_siblings().into_iter().map(|(l, s)| (l, DemoAir::Feat(s))).collect(),
+            _ => vec![],
+        }
+    }
+    fn sib_witness(&self) -> (RowMajorMatrix<V>, Vec<V>) {
+        match self {
+            DemoAir::Feat(a) => (a.trace::<V>(), a.pis::<V>()),
+            _ => unreachable!("AIR without siblings"),
+        }
+    }
+    fn same_family(&self, other: &Self) -> bool {
+        match (self, other) {
+            (DemoAir::Feat(a), DemoAir::Feat(b)) => a.same_family(b),
+            _ => false,
+        }
+    }
+    fn periods(&self) -> Vec<usize> {
+        match self {
+            DemoAir::Feat(a) => a.eff_periods(),
+            _ => vec![],
+        }
+    }
+}
+
+/// `wrongair:i:k:label` for every sibling of every instance (instances altered together listed once).
+pub fn wrongair_ids<V: Field, A: Siblings<V>>(airs: &[A]) -> Vec<String> {
+    let mut out = vec![];
+    for (i, a) in airs.iter().enumerate() {
+        if airs[..i].iter().any(|b| b.same_family(a)) {
+            continue;
+        }
+        for (k, (label, _)) in a.siblings().iter().enumerate() {
+            out.push(format!("wrongair:{i}:{k}:{label}"));
+        }
+    }
+    out
 }
 
 // ------------------------------------------------------------------------------------------
@@ -994,6 +1463,13 @@ pub fn main(args: &crate::Args) {
                 "detail": {"native": hn.tag(), "circuit": hc.tag(), "circuit_detail": hc.detail()},
                 "replay": {"target": tname, "honest": true}}));
         }
+        if !hn.accepts() && !hc.accepts() {
+            // a target whose honest proof the NATIVE verifier rejects exercises nothing (and is not a statement about
+            // the circuit): the target itself is broken (e.g. a constraint degree the FRI blowup cannot carry)
+            violations.push(json!({"property": "C01", "kind": "setup", "class": format!("setup-honest-proof-rejected-by-both:{tname}"),
+                "detail": {"native": hn.tag(), "circuit": hc.tag(), "circuit_detail": hc.detail()},
+                "replay": {"target": tname, "honest": true}}));
+        }
         for (fname, v) in corpus.iter().filter(|(_, v)| v["target"].as_str() == Some(tname.as_str())) {
             if v["honest"].as_bool() == Some(true) && hn.accepts() != hc.accepts() {
                 corpus_reproduced.push(fname.clone());
@@ -1001,11 +1477,20 @@ pub fn main(args: &crate::Args) {
         }
         let build_s = t0.elapsed().as_secs_f64();
         let Some(runner) = runner else {
-            per_target.push(json!({"target": tname, "native": hn.tag(), "circuit": hc.tag(), "positions": 0}));
+            per_target.push(json!({"target": tname, "native": hn.tag(), "circuit": hc.tag(), "positions": 0, "features": target.features}));
             continue;
         };
-        if !hn.accepts() || !hc.accepts() {
-            per_target.push(json!({"target": tname, "native": hn.tag(), "circuit": hc.tag(), "positions": 0}));
+        if !hn.accepts() {
+            per_target.push(json!({"target": tname, "native": hn.tag(), "circuit": hc.tag(), "positions": 0, "features": target.features}));
+            continue;
+        }
+        // The circuit could be built but rejects the honest proof (reported above). Element alterations and
+        // false-statement forgeries say nothing then (the circuit rejects everything), but the wrong-AIR moves do:
+        // a circuit that rejects the proofs of its own AIR may well accept those of a sibling — it then checks
+        // *another* AIR, which is the soundness side of the same defect. Only those moves are run.
+        let honest_broken = !hc.accepts();
+        if honest_broken && !target.forge_ids.iter().any(|id| id.starts_with("wrongair:")) {
+            per_target.push(json!({"target": tname, "native": hn.tag(), "circuit": hc.tag(), "positions": 0, "features": target.features}));
             continue;
         }
 
@@ -1066,7 +1551,7 @@ pub fn main(args: &crate::Args) {
 
         // corpus first
         for (fname, v) in corpus.iter().filter(|(_, v)| v["target"].as_str() == Some(tname.as_str())) {
-            if v["honest"].as_bool() == Some(true) || v.get("forge").is_some() {
+            if v["honest"].as_bool() == Some(true) || v.get("forge").is_some() || honest_broken {
                 continue;
             }
             let path = path_from_json(&v["path"]);
@@ -1086,7 +1571,7 @@ pub fn main(args: &crate::Args) {
             }
         }
 
-        if generate {
+        if generate && !honest_broken {
             for (kind, idxs) in by_kind.iter() {
                 let chosen: Vec<usize> = if per_kind == 0 || idxs.len() <= per_kind {
                     idxs.clone()
@@ -1165,6 +1650,7 @@ pub fn main(args: &crate::Args) {
         // algebraic check that the lie violates decides (OOD identity / terminal sum).
         let mut forged = 0u64;
         let mut forge_refused = 0u64;
+        let mut wrong_air_judged = 0u64;
         if let Some(forge) = &target.forge {
             let fam = tname.split('/').next().unwrap_or("");
             if let Some(d) = &target.drift {
@@ -1220,6 +1706,9 @@ pub fn main(args: &crate::Args) {
                 }
                 ids.extend(sel.into_iter().map(|id| (id, None)));
             }
+            if honest_broken {
+                ids.retain(|(id, _)| id.starts_with("wrongair:"));
+            }
             // checks seen decisive (native rejection names the check, both circuit modes reject)
             let mut decisive_ood: std::collections::BTreeSet<usize> = Default::default();
             let mut decisive_tsum = false;
@@ -1230,14 +1719,24 @@ pub fn main(args: &crate::Args) {
             let mut avail_pow = [false, false];
             let mut decisive_pow = [true, true];
             let has_grind = target.forge_ids.iter().any(|id| id.starts_with("grind:"));
-            let full_campaign = generate && target.drift.is_none();
+            let full_campaign = generate && target.drift.is_none() && !honest_broken;
             for (id, from_corpus) in ids {
-                let kind = id.split(':').next().unwrap_or("").to_string();
+                let mut kind = id.split(':').next().unwrap_or("").to_string();
+                let is_wrong_air = kind == "wrongair";
+                if is_wrong_air {
+                    // `wrongair:i:k:label` → `wrongair-label` (which part of the AIR the sibling differs in)
+                    kind = format!("wrongair-{}", id.split(':').nth(3).unwrap_or("sibling"));
+                }
                 let j = match catch_unwind(AssertUnwindSafe(|| forge(&id))).unwrap_or_else(|p| Err(panic_msg(p))) {
                     Ok(j) => j,
-                    Err(_) => {
+                    Err(e) => {
                         forge_refused += 1;
                         bump(&mut hist, &format!("forge-prover-refused:{fam}:{kind}"));
+                        if from_corpus.is_some() && is_wrong_air {
+                            // a pinned wrong-AIR case that can no longer be produced must not vanish silently
+                            violations.push(json!({"property": "C01", "kind": "campaign", "class": format!("pinned-forgery-not-producible:{fam}:{kind}"),
+                                "detail": {"native": "", "circuit": "", "circuit_detail": e}, "replay": {"target": tname, "forge": id}}));
+                        }
                         continue;
                     }
                 };
@@ -1247,6 +1746,16 @@ pub fn main(args: &crate::Args) {
                 forged += 1;
                 bump(&mut hist, &format!("forge:{fam}:{kind}:{}/{}", a.native.tag(), a.circ.tag()));
                 bump(&mut hist, &format!("forge-native:{}", a.native.tag()));
+                if is_wrong_air {
+                    // the wrong-AIR campaign per PCS flavour: which sibling kinds were judged, and how
+                    let verdict = match (a.native.accepts(), a.circ.accepts() && b.circ.accepts()) {
+                        (false, false) => "both-reject",
+                        (true, true) => "both-accept",
+                        _ => "DISAGREE",
+                    };
+                    bump(&mut hist, &format!("wrong-air:{fam}:{}:{verdict}", kind.trim_start_matches("wrongair-")));
+                    wrong_air_judged += 1;
+                }
                 if samples.len() < 12 && forged <= 2 {
                     samples.push(json!({"target": tname, "forge": id, "native": a.native.tag(), "circuit": a.circ.tag(),
                         "circuit_mode": a.mode}));
@@ -1337,6 +1846,7 @@ pub fn main(args: &crate::Args) {
         }
         per_target.push(json!({"target": tname, "native": hn.tag(), "circuit": hc.tag(), "leaves": all.len(),
             "forged_proofs": forged, "forgeries_refused_by_prover": forge_refused,
+            "features": target.features, "wrong_air_proofs": wrong_air_judged,
             "kinds": by_kind.len(), "positions": positions, "shape_kinds": shape_kinds,
             "setup_s": (build_s * 100.0).round() / 100.0, "total_s": (t0.elapsed().as_secs_f64() * 100.0).round() / 100.0}));
     }
